@@ -441,6 +441,16 @@ def run(chk, tier, seed):
     chk.add_model(tlc.run_model("PressureIter.tla", "PressureIter.cfg"), label="pressure iteration: flag iff converged exit, mean iff cap exit, damping monotone, improved update sticky")
     chk.add_model(tlc.run_model("PressureIter.tla", "PressureIterCap.cfg"), expect_violation="CapRespected",
                   label="documented counterexample: 'converged outside, not inside' halves the multiplier without looking at the iteration cap")
+    if tier == "thorough":
+        # unbounded in maxIterations and in the number of passes: inductive invariant discharged by Apalache
+        import subprocess
+        ap = subprocess.run([os.path.join(os.path.dirname(os.path.dirname(os.path.dirname(os.path.abspath(__file__)))), "tools", "apalache_pressureiter.sh")],
+                            capture_output=True, text=True, timeout=3000)
+        chk.extra["apalache_inductive_PressureIter"] = ap.stdout.strip().splitlines()
+        if ap.returncode == 1:
+            chk.violation("design:PressureIter:inductive", None, "Apalache did not discharge the inductive invariant of PressureIter.tla: " + ap.stdout[-400:])
+        elif ap.returncode != 0:
+            raise tlc.MachineryError("apalache_pressureiter.sh failed: " + (ap.stdout + ap.stderr)[-400:])
     ptraces = [{"id": f"{tr['id']}_call{j}", "ev": evs, "cell": dict(tr["cell"], kind="piter", call=j)} for tr in traces for j, evs in enumerate(tr.get("piter", []))]
     ptraces += [t for g in scripted for t in g]
     if ptraces:
